@@ -140,10 +140,12 @@ class Prepared(object):
                 self.decls.append((s, None))
             elif kind == "bv":
                 s = mgr.Symbol("c18_%s_bv%d" % (name, v[2]), BVType(v[2]))
-                self.decls.append((s, None))
+                # optional explicit candidate list (wide bit-vectors)
+                self.decls.append((s, list(v[3]) if len(v) > 3 else None))
             else:
                 s = mgr.Symbol("c18_%s_int" % name, INT)
-                self.decls.append((s, (v[2], v[3])))
+                # a range [lo, hi] or an explicit candidate list (huge values)
+                self.decls.append((s, list(v[2]) if isinstance(v[2], list) else (v[2], v[3])))
             self.syms[name] = s
         self.asserts = [build(a, self.syms, mgr) for a in case["asserts"]]
         cls = (brute.SCRIPT_MIXINS if case.get("routine") == "script" else brute.MIXINS)[case["mixin"]]
@@ -454,6 +456,10 @@ def run_case(case):
     solver.n_solves = 0
     # finite domains: every search needs far fewer calls than there are assignments x goals
     solver.max_solves = 50 + 4 * (len(goals) + 1) * (solver.evaluator().n + 2)
+    if case.get("bits"):
+        # huge values: binary search needs about 2*log2(range) calls per goal (first phase with an
+        # unknown far bound, then bisection); linear search is bounded by the candidate count
+        solver.max_solves += (len(goals) + 1) * (3 * int(case["bits"]) + 40)
     exc = None
     res = None
     try:
@@ -815,7 +821,7 @@ def run_script_case(case):
     viol = []
     rng = random.Random(case.get("seed", 0))
     solver.chooser = (lambda rows: rows[rng.randrange(len(rows))]) if case.get("chooser") != "first" else None
-    solver.max_solves = 400 * (ev.n + 2)
+    solver.max_solves = 200 + 30 * (ev.n + 2)
     text = script_text(case, prep)
     sig0 = {"routine": "script", "mixin": mixin, "strategy": "linear"}
 
@@ -1176,6 +1182,62 @@ def _with_history(rng, case, asserts_pool, goal_pool):
     return case
 
 
+def _huge_domains():
+    """(name, var spec without candidates, candidate values, bits)"""
+    offs = [0, 1, 2, 5, 6, 11, 12, 13]
+    out = []
+    for name, base in (("2^80", 2 ** 80), ("-2^80", -(2 ** 80)), ("10^30", 10 ** 30), ("-10^30", -(10 ** 30)),
+                       ("2^64", 2 ** 64 - 7), ("2^53", 2 ** 53 - 3)):
+        out.append((name, ["x", "int"], [base + k for k in offs], abs(base).bit_length() + 2))
+    out.append(("mixed", ["x", "int"], [-(2 ** 70) - 1, -(2 ** 70), -3, 0, 2 ** 60 + 1, 2 ** 75, 2 ** 75 + 1], 80))
+    for w, sel in ((64, "top"), (64, "mid"), (300, "top"), (300, "bottom"), (200, "signed")):
+        top = (1 << w) - 1
+        if sel == "top":
+            vals = [top - k for k in offs] + [0]
+        elif sel == "mid":
+            vals = [(1 << (w - 1)) + k - 6 for k in offs] + [3, top]
+        elif sel == "bottom":
+            vals = offs + [17]
+        else:           # values next to both ends of the signed range
+            vals = [(1 << (w - 1)) + k for k in offs[:4]] + [(1 << (w - 1)) - 1 - k for k in offs[:4]] + [0, top]
+        out.append(("bv%d-%s" % (w, sel), ["a", "bv", w], sorted(set(vals)), w + 2))
+    return out
+
+
+def _gen_huge(rng, reps):
+    strategies = ["linear", "binary"]
+    mixins = ["sua", "incr"]
+    for name, var, cands, bits in _huge_domains():
+        isbv = var[1] == "bv"
+        v = var[0]
+        w = var[2] if isbv else None
+        const = (lambda c: ["bv", c, w]) if isbv else (lambda c: ["int", c])
+        vars_ = [var + [cands]] if isbv else [[v, "int", cands]]
+        member = ["or"] + [["eq", v, const(c)] for c in cands]
+        signed_opts = [False, True] if isbv else [False]
+        for _ in range(reps):
+            for st in strategies:
+                for m in mixins:
+                    for kind in ("min", "max"):
+                        signed = rng.choice(signed_opts) if name != "bv200-signed" else True
+                        asserts = [member]
+                        if rng.random() < 0.5:
+                            asserts.append(["not", ["eq", v, const(rng.choice(cands))]])
+                        goal = {"kind": kind, "signed": signed, "terms": [v]}
+                        if not isbv and rng.random() < 0.4:
+                            goal = {"kind": kind, "terms": [["plus", v, ["int", rng.choice([-(2 ** 64), 10 ** 20, 7])]]]}
+                        c = _mk(rng, vars_, asserts, [goal], "single", st, m)
+                        c["bits"] = bits + 70
+                        yield c
+            # multi-objective on the same domains (binary)
+            g1 = {"kind": "max", "signed": name == "bv200-signed", "terms": [v]}
+            g2 = {"kind": "min", "signed": False, "terms": [v]}
+            for routine in ("lexi", "boxed", "pareto"):
+                c = _mk(rng, vars_, [member], [g1, g2], routine, "binary", rng.choice(mixins))
+                c["bits"] = bits + 70
+                yield c
+
+
 def _gen_focus(ctx):
     """Targeted streams that every budget sees first:
     (a) lexicographic optimisation over wide domains (several bisection steps per goal), 2-3 goals,
@@ -1217,6 +1279,9 @@ def _gen_focus(ctx):
                                rng.sample(bv_goals(w), ngoals), "lexi", st, m)
                         c["chooser"] = chooser
                         yield "lexi-wide", c
+    # extreme but legal values: Int objectives around +-2**80 / +-10**30, wide bit-vectors
+    for case in _gen_huge(rng, reps):
+        yield "huge", case
     # OMT scripts through SmtLibParser + SmtLibScript.evaluate (InterpreterOMT)
     for m in mixins:
         for fam in ("int", "bv"):
@@ -1407,6 +1472,24 @@ def interval_grid(ctx):
     a = mgr.Symbol("c18_ia", BVType(3))
     vals = [None, -5, -2, -1, 0, 1, 2, 3, 4, 7, 8, 9]
     reqs, exps, descr = [], [], []
+    # pivots for extreme but legal bounds (beyond 2**53: no float may be involved), compared exactly
+    huge = [None, -(10 ** 30), -(2 ** 80) - 1, -(2 ** 64), -(2 ** 53) - 1, -1, 0, 2 ** 53 + 1, 2 ** 63, 2 ** 64 - 1,
+            2 ** 80, 2 ** 80 + 1, 10 ** 30 + 7, 2 ** 199, 2 ** 300 - 2]
+    for dom, term in (("i", x), ("u64", mgr.Symbol("c18_ia64", BVType(64))),
+                      ("u300", mgr.Symbol("c18_ia300", BVType(300))), ("s200", mgr.Symbol("c18_ia200", BVType(200)))):
+        for d in ("min", "max"):
+            goal = (MinimizationGoal if d == "min" else MaximizationGoal)(term, dom.startswith("s"))
+            gs = "%s:%s:1" % (d, dom)
+            iv = OptSearchInterval(goal, env, [])
+            reqs.append("iv init " + gs)
+            exps.append("%s %s" % (sh(iv._lower), sh(iv._upper)))
+            descr.append(("init", gs))
+            for l, u in itertools.product(huge, huge):
+                iv = OptSearchInterval(goal, env, [])
+                iv._lower, iv._upper = l, u
+                reqs.append("iv pivot %s %s %s" % (gs, sh(l), sh(u)))
+                exps.append(str(iv._compute_pivot()))
+                descr.append(("pivot", gs, l, u))
     for dom, term in (("i", x), ("u3", a), ("s3", a)):
         for d in ("min", "max"):
             cls = MinimizationGoal if d == "min" else MaximizationGoal
@@ -1546,11 +1629,18 @@ def run(ctx):
     spec_batch = []
     ctx.extra["exhaustive"] = False
     n_routine = 0
+    n_guard = [0]
+    ctx._c18_guard = n_guard
     for fam, case in gen_cases(ctx):
         # the targeted streams always run completely (a few seconds), whatever the load
-        if fam not in ("lexi-wide", "history", "script") and time.time() > t_end:
+        if fam not in ("lexi-wide", "history", "script", "huge") and time.time() > t_end:
             break
         n_routine += 1
+        # circuit breaker: a tree on which many searches hit the call-count guard (each costs
+        # thousands of solve calls) has failed already; do not let the run drag on
+        if n_guard[0] > 8 or len(ctx.s_violations) > 3000:
+            ctx.extra["stopped_early"] = "too many violations (%d guard hits)" % n_guard[0]
+            break
         _one(ctx, fam, case, batch, spec_batch)
         if len(batch) >= 4000:
             _flush(ctx, batch, lean_ok)
@@ -1594,6 +1684,8 @@ def _one(ctx, fam, case, batch, spec_batch):
         ctx.sample({"case": case, "result": py_ans["result"], "events": " ".join(py_ans["trace"])})
     for sig, what in viol:
         ctx.report_s(sig, what, {"case": case})
+        if sig.get("exc") == "BruteBudgetExceeded" and getattr(ctx, "_c18_guard", None) is not None:
+            ctx._c18_guard[0] += 1
     if not info["skip_k"]:
         batch.append((case, req, py_ans, info["prep"]))
         if ctx.evaluations % 5 == 0:
